@@ -22,7 +22,9 @@ Init == k \in 1..Len(Cases) /\ l = 1 /\ S = Begin(Fresh, Cases[k].s, Cases[k].ba
 
 Running == S.res = None
 CurA == Instr(S).a
-InLoopSub == Running /\ CurA = "exitFor" /\ (Top(S).loop = None \/ Top(S).loop.vi > Len(Top(S).loop.vals) \/ Top(S).loop.si = 0)
+\* (IF rather than \/ : TLC evaluates every disjunct of a disjunction that occurs in an action)
+InLoopSub == IF ~Running THEN FALSE ELSE IF CurA # "exitFor" THEN FALSE ELSE IF Top(S).loop = None THEN TRUE
+             ELSE IF Top(S).loop.vi > Len(Top(S).loop.vals) THEN TRUE ELSE Top(S).loop.si = 0
 Silent == InLoopSub /\ S' = Step(S) /\ UNCHANGED <<k, l, bad>>
 
 \* which machine instruction an event name stands for
@@ -48,7 +50,8 @@ Consume ==
   /\ LET e == Ev[l] IN
      IF ~Running
      THEN \* the load is over (an exception is unwinding): the remaining events must all carry it
-          /\ bad' = (IF e.exc # "" /\ S.res.k = "raise" THEN "" ELSE "event-after-end") /\ l' = l + 1 /\ UNCHANGED <<k, S>>
+          /\ bad' = (IF S.res.k = "unspec" THEN "unspecified" ELSE IF e.exc # "" /\ S.res.k = "raise" THEN "" ELSE "event-after-end")
+          /\ l' = l + 1 /\ UNCHANGED <<k, S>>
      ELSE IF e.ev \in {"exitInclude", "exitForloop"}
      THEN \* returns of callbacks whose work the machine has already done step by step
           /\ bad' = (IF e.exc = "" THEN "" ELSE "exception") /\ l' = l + 1 /\ UNCHANGED <<k, S>>
